@@ -340,6 +340,10 @@ func TestVerif_C20_set(t *testing.T) {
 		if r.Intn(6) == 0 {
 			return verifh.RandBytes(r, r.Intn(40), "")
 		}
+		if r.Intn(8) == 0 {
+			s.Count("text:scheme-like")
+			return c20SchemeText(r)
+		}
 		return verifh.Pick(r, texts)
 	}
 	var scripted [][]op
@@ -351,6 +355,9 @@ func TestVerif_C20_set(t *testing.T) {
 				[]op{{"rb", "other", "pw"}, {"cb", "admin", "s3cret"}, {lvl + "b", up[0], up[1]}},
 				[]op{{lvl + "t", "tok", ""}, {lvl + "b", up[0], up[1]}},
 				[]op{{lvl + "b", up[0], up[1]}, {"cb", "late", "comer"}})
+		}
+		for _, v := range c20SchemeLike[:6] {
+			scripted = append(scripted, []op{{lvl + "t", v, ""}}, []op{{"cb", "admin", "s3cret"}, {lvl + "t", v, ""}})
 		}
 		scripted = append(scripted, []op{{lvl + "t", "", ""}}, []op{{"cb", "admin", "s3cret"}, {lvl + "t", "", ""}}, []op{{lvl + "b", "u", "p"}, {lvl + "t", "", ""}})
 	}
